@@ -98,7 +98,6 @@ func main() {
 	c.R.Done()
 }
 
-
 // Each runs fn for every case index of this child (or just -only), journalling the
 // index first and turning an escaping panic into a violation of clause "panic".
 func (c *Ctx) Each(fn func(idx int, r *gen.R)) {
